@@ -82,7 +82,7 @@ func main() {
 	if suite.SolverBin != "" && !isFlagSet("solver") {
 		*solver = suite.SolverBin
 	}
-	pats := append([]string{vsPkg}, suite.Packages...)
+	pats := append([]string{vsPkg}, activePackages(suite, *tier, *only)...)
 	eng, err := LoadEngine(pats, filepath.Join(verifDir, "harness"))
 	if err != nil {
 		fmt.Fprintln(os.Stderr, "load:", err)
